@@ -9,7 +9,7 @@ BOUND = TO["connection"] + TO["acse"] + TO["dimse"] + 2 * TO["network"] + TO["ac
 RULE = (
     "For both roles the byte transcript of a well-behaved raw peer (association negotiation, C-STORE command set, data set, release) "
     "is cut at a generated offset (uniform + biased to PDU boundaries +-1 and header bytes); after the cut the peer either stalls with the "
-    "connection open, dribbles the rest one byte per d < network_timeout, or (after complete PDUs) simply never answers. Schedules: "
+    "connection open, dribbles the rest one byte per d < network_timeout, (after complete PDUs) simply never answers, or ('flood', from a PDU boundary) streams complete A-RELEASE-RQ PDUs back to back for longer than the bound. Schedules: "
     f"fifo/random/pct + preemptions. Timeouts: {TO}, the connection timeout also None (the library default); in half of the cases the wall clock is stepped by an hour (either direction) at up to three generated scheduler steps. Oracle: by virtual time {BOUND} s (connection + acse + dimse + 2 x network + ARTIM + 3 s margin - "
     "deliberately weaker than 'the relevant one') every pynetdicom thread is finished, every user call has returned and the local socket is closed; "
     "a thread blocked with no deadline at all is reported as 'blocks forever'. Non-trivial = cut strictly inside a PDU (or dribbling)."
@@ -76,6 +76,12 @@ def build(case):
                 script.append(["sleep", d])
                 script.append(["send", rest[k : k + 1]])
             script.append(["sleep", 200])
+        elif mode == "flood":
+            # the peer never stops talking: complete A-RELEASE-RQ PDUs back to back (every 0.05 s) for longer than the bound. Whatever state
+            # that drives the provider into (an abort and Sta13 at the latest), only its own timers can end the association.
+            for _ in range(int((BOUND + 6) / 0.05)):
+                script.append(["send", R.ref_encode(R.ReleaseRQ())])
+                script.append(["sleep", 0.05])
         else:
             script.append(["sleep", 200])
         break
@@ -83,10 +89,10 @@ def build(case):
     sched = {"policy": case["policy"], "seed": case["seed"], "preemptions": case["pre"], "nudges": case.get("nudges", [])}
     TO = dict(globals()["TO"], connection=case.get("conn", 2))  # connection timeout 2 s or None (the library default)
     if role == "acceptor":
-        return {"timeouts": TO, "max_steps": 40000, "time_limit": BOUND,
+        return {"timeouts": TO, "max_steps": 60000, "time_limit": BOUND,
                 "acceptor": {"kind": "pynetdicom", "handlers": {}},
                 "requestors": [{"kind": "raw", "script": script}], "schedule": sched}
-    return {"timeouts": TO, "max_steps": 40000, "time_limit": BOUND,
+    return {"timeouts": TO, "max_steps": 60000, "time_limit": BOUND,
             "acceptor": {"kind": "raw", "script": script},
             "requestors": [{"kind": "pynetdicom", "script": [["associate"], ["store", 300], ["release"]]}], "schedule": sched}
 
@@ -173,9 +179,11 @@ def strategy(ctx):
             cut = draw(st.integers(1, min(6, n)))
         else:
             cut = n
-        mode = draw(st.sampled_from(["stall", "stall", "dribble"]))
-        if cut == n:
+        mode = draw(st.sampled_from(["stall", "stall", "dribble", "flood"]))
+        if cut == n and mode == "dribble":
             mode = "stall"
+        if mode == "flood":
+            cut = draw(st.sampled_from(bounds[(role, phase)]))  # the flood starts at a PDU boundary
         d = draw(st.sampled_from([0.5, 1.5, 3.0]))
         if mode == "dribble" and n - cut > 40:
             cut = n - draw(st.integers(2, 40))  # keep dribbles short: the point is only that each gap is < network timeout
